@@ -66,6 +66,12 @@ class Driver(object):
       self.net.add_endpoint('h1', 1001, lambda net, c: peer_cls(net, c, H.Processor, peers.EchoHandler, self.server_log))
       self.sinkB = SocketTransportSink.Builder().CreateSink({SinkProperties.Endpoint: Endpoint('h1', 1001), SinkProperties.Label: 'svc'})
     self.term = stubs.make_terminal_class()()
+    if params.get('reenter'):
+      # a consumer that hands the transport the next request from inside the callback that delivers a failure (a retry layer)
+      def hook(context, msg):
+        if msg is not None and getattr(msg, 'error', None) is not None and 'rr' not in self.reqs and context not in ('rr', 'probe', 'bprobe'):
+          self.do_request('rr')
+      self.term.on_response = hook
     self.reqs = {}
     self.faults_notified = []
     self.sink.on_faulted.Subscribe(lambda v: self.faults_notified.append((self.lp.now(), v)))
@@ -399,6 +405,13 @@ def scripts():
   out.append(('mux peer stops answering pings with requests in flight',
               {'transport': 'mux', 'withhold': ['ping2', 'r2', 'r3'],
                'script': [['req', 'r1'], ['wait', 29.0], ['req', 'r2'], ['req', 'r3', 0.5025], ['wait', 8.0, 0.5]]}))
+  # a consumer that re-enters the transport from its failure callback
+  out.append(('thrift, the consumer issues the next request from inside the failure callback',
+              {'transport': 'thrift', 'withhold': [], 'reenter': True,
+               'script': [['req', 'r1'], ['wait', 0.3, 0.05], ['req', 'r2'], ['wait', 0.3, 0.05]]}))
+  out.append(('mux, the consumer issues the next request from inside the failure callback',
+              {'transport': 'mux', 'withhold': [], 'reenter': True,
+               'script': [['req', 'r1'], ['req', 'r2'], ['wait', 0.3, 0.05], ['req', 'r3'], ['wait', 0.3, 0.05]]}))
   # two transports alive in one process; only the first one's connection is disturbed
   out.append(('mux, second transport to another endpoint stays healthy',
               {'transport': 'mux', 'withhold': [], 'bystander': True,
